@@ -1171,6 +1171,9 @@ class MindsDBParser(Parser):
 
     @_('select USING kw_parameter_list')
     def select(self, p):
+        if not isinstance(p.select, Select):
+            # ( a UNION b ) USING ...: a set operation has no parameters, they would be silently dropped
+            raise ParsingException('USING is not supported for a set operation')
         p.select.using = p.kw_parameter_list
         return p.select
 
